@@ -87,7 +87,21 @@ def run(prog: Program, rep: Report, tier: str) -> None:
         if T.is_seq(v) and len(v[2]) == 1 and v[2][0][0] == "txt" and v[2][0][1][:2] == ("app", "str") and len(v[2][0][1]) == 3:
             inner = v[2][0][1][2]
         if inner is None:
-            rep.bad("R14.1", f"path {k}: result form", where, f"result is {T.show(v)[:200]}, not str(<timedelta>)", key="R14.1|form")
+            # form D: minutes arithmetic.  With Em = 60*E.hour + E.minute (same for S) and M = (Em - Sm) % 1440 the text
+            # f"{M // 60}:{M % 60:02d}:00" is str() of the timedelta (E - S) mod 24 h (lemma: '%H:%M' parses to whole
+            # minutes; str(timedelta) below one day is 'H:MM:SS' with H unpadded).
+            if v == minutes_form(I, S, E, 1440):
+                covered["mod"] = True
+                rep.ok("R14.1", f"path {k}: modular form on minutes", where, "equal to the reference text built from strptime(s, '%H:%M') and strptime(e, '%H:%M')")
+                continue
+            for wrong in (1439, 1441, 720, 86400):
+                if v == minutes_form(I, S, E, wrong):
+                    rep.bad("R14.1", f"path {k}: modulus", where, f"the minute difference is reduced modulo {wrong}, not 1440 (minutes per day)", key="R14.1|modulus")
+                    break
+            else:
+                rep.undecided("R14.1", f"path {k}: result form", where,
+                              f"the duration is computed as {T.show(v)[:260]}, which is none of the accepted forms (timedelta forms, (Em - Sm) % 1440 on minutes); "
+                              f"whether another arithmetic is equal to (end - start) mod 24 h cannot be decided by comparing normal forms")
             continue
         # formats
         fmts = set()
@@ -129,9 +143,35 @@ def run(prog: Program, rep: Report, tier: str) -> None:
             rep.check(ok, "R14.1", f"path {k}: (end - start) + 1 day when end < start", where,
                       f"(end - start) + 1 day is returned under guard {T.show(conj(o.state.pc))[:240]}; it must be exactly the case end < start (strict)", key="R14.1|lt-branch")
             continue
+        if not any(x in T.show(inner) for x in ("datetime.datetime.strptime(end_time", "datetime.datetime.strptime(start_time")) or _foreign_arith(inner):
+            rep.undecided("R14.1", f"path {k}: value", where,
+                          f"the duration is computed as {T.show(inner)[:260]}: not one of the accepted normal forms; equality of another arithmetic with (end - start) mod 24 h is outside this analysis")
+            continue
         rep.bad("R14.1", f"path {k}: value", where, f"duration is computed as {T.show(inner)[:300]}; accepted forms: (E - S), (E + 1 day) - S, (E - S) + 1 day, (E - S) % 1 day", key="R14.1|value")
     complete = covered["mod"] or (covered["lt"] and covered["ge"])
     rep.check(complete, "R14.1", "case split complete", where, f"the cases end<start / end>=start are not both covered correctly: {covered}", key="R14.1|complete")
+
+
+def minutes_form(I: Interp, S: T.Term, E: T.Term, modulus: int) -> T.Term:
+    """The reference text of form D, built by the interpreter itself from a reference expression."""
+    import ast as _ast
+    from ..interp import Ctx, State
+    st = State()
+    st.env = {"S": S, "E": E}
+    src = f"f\"{{((E.hour * 60 + E.minute) - (S.hour * 60 + S.minute)) % {modulus} // 60}}:{{((E.hour * 60 + E.minute) - (S.hour * 60 + S.minute)) % {modulus} % 60:02d}}:00\""
+    mod = I.prog.module("aioswitcher.schedule.tools")
+    return I.eval(_ast.parse(src, mode="eval").body, st, Ctx(None, mod, 0))
+
+
+def _foreign_arith(v: Any) -> bool:
+    """Arithmetic that the timedelta normal forms never contain (products, quotients, remainders by numbers)."""
+    if isinstance(v, tuple):
+        if v[:1] == ("app",) and len(v) > 1 and v[1] in ("mul", "floordiv", "truediv", "int", ".total_seconds", "time.mktime", "divmod"):
+            return True
+        if v[:2] == ("app", "mod") and len(v) == 4 and T.is_c(v[3]):
+            return True
+        return any(_foreign_arith(x) for x in v)
+    return False
 
 
 def _collect_fmts(v: Any, s_p: T.Term, e_p: T.Term, acc: set) -> None:
